@@ -37,6 +37,8 @@ Identities ==
      /\ BFloorDivMod(sq, BMul(y, y))[2] = Z0
      /\ BCmp(BAdd(x, BLit(1)), x) = 1 /\ BCmp(BNeg(y), y) = -1
      /\ BMul(BPow2(64), BPow2(63)) = BPow2(127)
+     /\ I128MaxLit = BSub(BPow2(127), BLit(1)) /\ I128MinLit = BNeg(BPow2(127))
+     /\ \A k \in 0..40 : BPow10(k) = (IF k = 0 THEN BLit(1) ELSE BMul(BLit(10), BPow10(k - 1)))
      /\ BDigits(BPow10(38)) = 39 /\ BDigits(BSub(BPow10(38), BLit(1))) = 38
      /\ BFloorDivMod(BPow2(127), BPow10(29))[1] = BLit(1701411834) \* 2^127 = 170141183460469231731687303715884105728
 =======================================================================
